@@ -650,6 +650,22 @@ def _replay_rewriter(model, rec):
     ch.replace_data(data(1))
     if len(plotArea.sers) != 1 or any(len(x.sers) == 0 for x in plotArea.xCharts):
         return {"confirmed": True, "witness_class": "rewriter-trim", "detail": "trimmed to 1 series: %d series, plots %s" % (len(plotArea.sers), [len(x.sers) for x in plotArea.xCharts])}
+    # three plots, one series each, trimmed to one series: both emptied plots must go
+    ch3 = sl.shapes.add_chart(XL_CHART_TYPE.COLUMN_CLUSTERED, 0, 0, Inches(2), Inches(2), data(3)).chart
+    pa3 = ch3._chartSpace.plotArea
+    bar3 = pa3.xCharts[0]
+    anchor = bar3
+    for nm in ("lineChart", "areaChart"):
+        x = parse_xml('<c:%s %s><c:grouping val="standard"/><c:varyColors val="0"/><c:axId val="1"/><c:axId val="2"/></c:%s>' % (nm, C, nm))
+        anchor.addnext(x)
+        sr = bar3.sers[-1]
+        bar3.remove(sr)
+        x.insert(2, sr)
+        anchor = x
+    shape3 = [len(x.sers) for x in pa3.xCharts]
+    ch3.replace_data(data(1))
+    if shape3 == [1, 1, 1] and ([len(x.sers) for x in pa3.xCharts] != [1] or len(list(ch3.plots)) != 1):
+        return {"confirmed": True, "witness_class": "rewriter-trim", "detail": "bar+line+area with one series each trimmed to 1 series: plots now hold %s series" % [len(x.sers) for x in pa3.xCharts]}
     ch2 = sl.shapes.add_chart(XL_CHART_TYPE.BAR_CLUSTERED, 0, 0, Inches(2), Inches(2), data(2)).chart
     s = ch2._chartSpace.plotArea.sers
     s[0].order.val, s[1].order.val = 1, 0
@@ -765,6 +781,75 @@ def _add_cloned(c):
         c.ensures("post.new_idx_values_unused_and_distinct", z3.And(*[z3.Not(USED_IDX[0](v)) for v in allidx], z3.Distinct(*allidx) if len(allidx) > 1 else True))
         allord = state["ord"]
         c.ensures("post.new_order_values_unused_and_distinct", z3.And(*[z3.Not(USED_ORD[0](v)) for v in allord], z3.Distinct(*allord) if len(allord) > 1 else True))
+
+
+def _make_trim(shape):
+    total = sum(shape)
+
+    @contract("C07", "C07.chart.xmlwriter._BaseSeriesXmlRewriter._trim_ser_count_by[plots=%s]" % "+".join(map(str, shape)), replay=_replay_rewriter)
+    def body(c):
+        """for a plot area whose plots hold the given numbers of series and every surplus count: exactly the last `count`
+        series (plot order, then series order) are removed, every plot left without a series is removed, every other plot
+        and series stays, in order.  The shape of the plot area is enumerated (<= 3 plots, <= 3 series each); the
+        elements are ghosts, the code is the real one."""
+        from pptx.chart.xmlwriter import _BaseSeriesXmlRewriter
+        from pyvc.engine import GhostProp
+
+        c.path.assumed.add("_trim_ser_count_by: verified for plot areas of <= 3 plots with <= 3 series each, every surplus count (enumerated shapes, ghost elements)")
+        count = c.path.fork([c.int("count") == k for k in range(1, total)]) + 1 if total > 1 else None
+        if count is None:
+            return
+        removed = []
+        pa = SObj(None, "plotArea")
+        plots = []
+        for i, n in enumerate(shape):
+            x = SObj(None, "xChart%d" % i)
+            x.kids = [SObj(None, "ser%d_%d" % (i, j)) for j in range(n)]
+            for sr in x.kids:
+                sr.fields["getparent"] = GhostFn(lambda it, a, k, x=x: x, "getparent")
+            x.fields["sers"] = GhostProp(lambda it, x=x: tuple(x.kids))
+            x.fields["iter_sers"] = GhostFn(lambda it, a, k, x=x: list(x.kids), "iter_sers")
+            x.fields["getparent"] = GhostFn(lambda it, a, k: pa, "getparent")
+
+            def rm(it, a, k, x=x):
+                if not any(a[0] is q for q in x.kids):
+                    raise Exception("remove() of an element that is not a child")
+                x.kids = [q for q in x.kids if q is not a[0]]
+                removed.append(a[0])
+
+            x.fields["remove"] = GhostFn(rm, "remove")
+            plots.append(x)
+        state = {"plots": list(plots)}
+        original = [sr for x in plots for sr in x.kids]
+        pa.fields["sers"] = GhostProp(lambda it: tuple(sr for x in state["plots"] for sr in x.kids))
+        pa.fields["iter_sers"] = GhostFn(lambda it, a, k: [sr for x in state["plots"] for sr in x.kids], "iter_sers")
+        pa.fields["xCharts"] = GhostProp(lambda it: tuple(state["plots"]))
+        pa.fields["iter_xCharts"] = GhostFn(lambda it, a, k: list(state["plots"]), "iter_xCharts")
+
+        def rmx(it, a, k):
+            if not any(a[0] is q for q in state["plots"]):
+                raise Exception("remove() of an element that is not a child")
+            state["plots"] = [q for q in state["plots"] if q is not a[0]]
+            removed.append(a[0])
+
+        pa.fields["remove"] = GhostFn(rmx, "remove")
+        rw = SObj(_BaseSeriesXmlRewriter, "rewriter")
+        out = c.run(_BaseSeriesXmlRewriter._trim_ser_count_by, rw, pa, count)
+        if out.raised:
+            c.fails("never_raises", "raised %s" % out.exc)
+            return
+        keep = original[: total - count]
+        left = [sr for x in state["plots"] for sr in x.kids]
+        c.ensures("post.exactly_the_last_count_series_removed", len(left) == len(keep) and all(a is b for a, b in zip(left, keep)))
+        want_plots = [x for x in plots if x.kids]
+        c.ensures("post.no_plot_left_without_series", all(len(x.kids) > 0 for x in state["plots"]))
+        c.ensures("post.every_plot_that_keeps_a_series_stays_in_order", len(state["plots"]) == len(want_plots) and all(a is b for a, b in zip(state["plots"], want_plots)))
+
+    return body
+
+
+for _shape in [(2,), (3,), (1, 1), (2, 1), (1, 2), (2, 2), (1, 1, 1), (2, 1, 1), (1, 2, 1), (1, 1, 2), (2, 2, 2), (3, 1, 2)]:
+    _make_trim(_shape)
 
 
 def _make_next(kind):
